@@ -65,7 +65,9 @@ Catalogue == <<
 NSizes == Len(Catalogue)
 Names == {Catalogue[i].name : i \in 1..NSizes}
 IdxOf(n) == CHOOSE i \in 1..NSizes : Catalogue[i].name = n
-SizeTab == [n \in Names |-> Catalogue[IdxOf(n)]]     \* cached: function from name to row
+\* function from name to row, built with :> and @@ so that TLC holds an explicit function (a function
+\* constructor would stay lazy and re-evaluate the CHOOSE on every application)
+SizeTab == FoldLeft(LAMBDA stacc, sti : stacc @@ (Catalogue[sti].name :> Catalogue[sti]), <<>>, [sti \in 1..NSizes |-> sti])
 Sz(n) == SizeTab[n]
 
 Cap(n)      == Sz(n).data
